@@ -323,6 +323,34 @@ impl StorageEngine {
         }
     }
     
+    /// Get a value together with its remaining time to live, both read under one lock so that
+    /// they belong to the same instant (used by snapshots)
+    pub fn get_with_ttl(&self, db: DatabaseIndex, key: &[u8]) -> Result<Option<(Value, Option<Duration>)>> {
+        let shard = self.get_shard(db, key)?;
+        let shard_guard = shard.read().unwrap();
+        
+        Ok(match shard_guard.data.get(key) {
+            Some(stored_value) if !stored_value.is_expired() => {
+                let ttl = stored_value.metadata.expires_at
+                    .map(|expires_at| expires_at.saturating_duration_since(Instant::now()));
+                // A sorted set is shared by reference: copy its members so that the snapshot
+                // does not follow later updates
+                let value = match &stored_value.value {
+                    Value::SortedSet(skiplist) => {
+                        let copy = SkipList::new();
+                        for (member, score) in skiplist.get_all_items() {
+                            copy.insert(member, score);
+                        }
+                        Value::SortedSet(Arc::new(copy))
+                    }
+                    other => other.clone(),
+                };
+                Some((value, ttl))
+            }
+            _ => None,
+        })
+    }
+    
     /// Get string value
     pub fn get_string(&self, db: DatabaseIndex, key: &[u8]) -> Result<Option<Vec<u8>>> {
         match self.get(db, key)? {
